@@ -126,19 +126,22 @@ def replay_hex(c, pid, path):
 
 
 def mc_deflate(c, wd):
-    """The reader's grammar as a state machine over the catalogue of MC_Deflate."""
-    r = mc("MC_Deflate", wd, constants={"Emit": "FALSE"},
-           invariants=["Total", "Verdicts", "ProperPrefixOfValid", "ReserialiseIsIdentity"], properties=["Terminates"],
-           must_cover=["Next"], timeout=3000)
+    """The reader's grammar as a state machine over the catalogue of MC_Deflate; the same run
+    prints every catalogue input with the verdict, reason and tokens the specification computed."""
+    cat = os.path.join(wd, "catalogue.ndjson")
+    r = mc("MC_Deflate", wd, constants={"Emit": "TRUE"},
+           invariants=["Total", "Verdicts", "ProperPrefixOfValid", "ReserialiseIsIdentity", "Replay"],
+           properties=["Terminates"], must_cover=["Next"], timeout=3000, replay_out=cat)
     c.add_model(r, "DEFLATE reader grammar: every production, every way it can fail, end of input inside every "
                    "field (all byte prefixes of 31 catalogue inputs)")
+    if r["replays"] == 0:
+        raise ToolError("MC_Deflate printed no catalogue")
     return r
 
 
 def replay_catalogue(c, wd, pid):
-    """spec -> impl: the catalogue with the verdict, reason and tokens the specification computed."""
+    """spec -> impl: the catalogue through the real parser and the public API."""
     cat = os.path.join(wd, "catalogue.ndjson")
-    generate("MC_Deflate", wd, cat, constants={"Emit": "TRUE"}, invariants=["Replay"], timeout=3000)
     res = cat + ".res"
     vh(["deflate-edge-replay", "--in", cat, "--out", res])
     rs = list(read_ndjson(res))
